@@ -99,3 +99,102 @@ Print Assumptions C15_track_wire_fresh_index.
 Print Assumptions C15_tracked_outputs_in_index_order.
 Print Assumptions C15_indexed_outputs_in_argument_order.
 Print Assumptions C15_repeated_command_chains.
+
+(* ------------------------------------------------------------------ second pass: composition with C01 *)
+From HV Require Import model.Validity model.Builder spec.BuilderWFS model.TrackedBuilder proofs.TrackedValidP.
+
+(* The plain-builder model of model/Tracked.v and C01's builder model (model/Builder.v) build the same graph on the
+   fragment both have (Dfg root; add_op / add / extend of operations with a fixed signature, Tag, Noop / MakeTuple /
+   UnpackTuple; one final set_outputs): if the explicit program q runs through in Tracked.v and its translation
+   to_builder q is well typed (wt_prog), then Builder.run does not raise (a progress statement: C01's own theorems
+   assume it) and its document is doc_of of the node/link log: root, Input, Output, one child of the root per logged
+   node in creation order whose operation is the completion of the given specification, and the logged links port
+   for port in insertion order. *)
+Theorem C15_plain_model_is_C01_builder : forall tys ins specs q h,
+  frag q = true ->
+  wt_prog tys (to_builder ins specs q) = true ->
+  run_plain (lenN ins) q = (h, None) ->
+  exists outs ops,
+    length ops = length (h_nodes h) /\ OpsOK tys specs ops /\
+    Builder.run tys (to_builder ins specs q) = Ok (doc_of ins outs ops h).
+Proof. exact plain_builder_same_graph. Qed.
+
+(* C01's validity theorem for the tracked dataflow builder.  For every tracked program (track_wire / track_wires /
+   track_inputs / untrack_wire / add / extend in any order and any mix of integer and wire arguments, ended by its
+   only set_tracked_outputs / set_indexed_outputs: tfrag) whose explicit translation is a well-formed builder program
+   in the sense of C01 (wf_prog) and on which no builder call raises: the explicit translation runs to the end in
+   C01's builder model, the document it serialises is exactly the HUGR the tracked builder built, and it satisfies
+   the whole validity predicate. *)
+Theorem C15_tracked_programs_valid : forall tys ins specs track p h tr,
+  r_table tys = true ->
+  tfrag p = true ->
+  wf_prog tys (to_builder ins specs (explicit_prog (lenN ins) track p)) = true ->
+  run_tracked (lenN ins) track p = (h, tr, None) ->
+  exists outs ops,
+    length ops = length (h_nodes h) /\ OpsOK tys specs ops /\
+    Builder.run tys (to_builder ins specs (explicit_prog (lenN ins) track p)) = Ok (doc_of ins outs ops h) /\
+    valid {| v_tys := tys; v_main := doc_of ins outs ops h; v_subs := [] |} = true.
+Proof. exact tracked_programs_valid. Qed.
+
+(* the premises are satisfiable: two tracked qubits, a two-qubit gate on (0, 1) with metadata, a gate on index 1 with
+   an explicit classical wire before the index (extend), a one-qubit gate on 0, set_tracked_outputs *)
+Theorem C15_tracked_valid_example :
+  r_table circ_tys = true /\ tfrag circ_prog = true /\
+  wf_prog circ_tys (to_builder circ_ins circ_specs (explicit_prog 3 false circ_prog)) = true /\
+  exists h tr, run_tracked 3 false circ_prog = (h, tr, None) /\ length (h_nodes h) = 3%nat /\ length (h_links h) = 7%nat /\
+    tr = [Some (4, 0); Some (3, 1)]%N /\
+    exists outs ops,
+      Builder.run circ_tys (to_builder circ_ins circ_specs (explicit_prog 3 false circ_prog)) = Ok (doc_of circ_ins outs ops h) /\
+      outs = [0; 0]%N /\ ops = [ExtOp [0; 0] [0; 0]; ExtOp [1; 0] [1; 0]; ExtOp [0] [0]]%N /\
+      valid {| v_tys := circ_tys; v_main := doc_of circ_ins outs ops h; v_subs := [] |} = true.
+Proof. exact circuit_example. Qed.
+
+(* The premise stated on the TRACKED program.  `twf` (spec/TrackedWFS.v) is a boolean computed from the text of the
+   tracked program alone — it follows the tracked table symbolically, knows the output row of every node by name and
+   keeps the non-copyable wires still to be consumed: every integer names a tracked index at that moment; every wire
+   used (through an index or explicitly) is an existing output port; argument types are the operation's input row
+   (or complete a partial operation); the declared number of outputs is the operation's; every non-copyable wire is
+   consumed exactly once, by one later argument or by the final set_*_outputs.  A program it accepts lies in the
+   fragment, makes no builder call of the tracked-builder model raise, and its explicit translation is well formed
+   in the sense of C01 ... *)
+From HV Require Import spec.TrackedWFS proofs.TrackedWFP.
+Theorem C15_tracked_wf_sound : forall tys ins specs track p,
+  twf tys ins specs track p = true ->
+  tfrag p = true /\
+  (exists h tr, run_tracked (lenN ins) track p = (h, tr, None)) /\
+  wf_prog tys (to_builder ins specs (explicit_prog (lenN ins) track p)) = true.
+Proof. exact twf_sound. Qed.
+
+(* ... hence, with no premise about runs: every tracked program accepted by twf builds a HUGR whose document
+   (root, Input, Output, the added nodes in creation order, exactly the tracked builder's links) satisfies the whole
+   validity predicate. *)
+Theorem C15_wellformed_tracked_programs_valid : forall tys ins specs track p,
+  r_table tys = true ->
+  twf tys ins specs track p = true ->
+  exists h tr outs ops,
+    run_tracked (lenN ins) track p = (h, tr, None) /\
+    length ops = length (h_nodes h) /\ OpsOK tys specs ops /\
+    Builder.run tys (to_builder ins specs (explicit_prog (lenN ins) track p)) = Ok (doc_of ins outs ops h) /\
+    valid {| v_tys := tys; v_main := doc_of ins outs ops h; v_subs := [] |} = true.
+Proof. exact tracked_wf_programs_valid. Qed.
+
+(* the circuit of C15_tracked_valid_example is accepted by twf *)
+Theorem C15_tracked_wf_example : twf circ_tys circ_ins circ_specs false circ_prog = true.
+Proof. exact circuit_twf. Qed.
+
+(* the premise is needed: hugr-py's tracked builder accepts a program that untracks a qubit and never uses it again;
+   the document is rejected by the validity predicate; twf rejects the program *)
+Theorem C15_tracked_wf_needed :
+  twf circ_tys [0; 0]%N [OFixed [0; 0] [0; 0]]%N true drop_prog = false /\
+  (exists h tr, run_tracked 2 true drop_prog = (h, tr, None)) /\
+  exists g, Builder.run circ_tys (to_builder [0; 0]%N [OFixed [0; 0] [0; 0]]%N (explicit_prog 2 true drop_prog)) = Ok g /\
+            valid {| v_tys := circ_tys; v_main := g; v_subs := [] |} = false.
+Proof. exact twf_needed. Qed.
+
+Print Assumptions C15_plain_model_is_C01_builder.
+Print Assumptions C15_tracked_programs_valid.
+Print Assumptions C15_tracked_valid_example.
+Print Assumptions C15_tracked_wf_sound.
+Print Assumptions C15_wellformed_tracked_programs_valid.
+Print Assumptions C15_tracked_wf_example.
+Print Assumptions C15_tracked_wf_needed.
